@@ -28,7 +28,11 @@ type c07Case struct {
 	AvailP  []int  `json:"availp,omitempty"`  // explicit: available parity shards
 	K       int    `json:"k,omitempty"`       // tight: number of missing data shards = number of available parity shards
 	NoSSSE3 bool   `json:"nossse3,omitempty"` // run with the SSSE3 dispatch flag forced off
+	Alias   int    `json:"alias,omitempty"`   // small: the first Alias data shards have the same content and are handed in as the SAME slice (as a decoder does for duplicated slices)
 }
+
+// c07Alias is set by the "small" kind for the duration of a case: number of leading data shards handed in as one slice.
+var c07Alias int
 
 func c07NewCoder(kind string, d, p, g int) (rsec16.Coder, error) {
 	if kind == "cauchy" {
@@ -77,6 +81,11 @@ func c07Try(r *core.Rec, coder rsec16.Coder, kind string, d, p int, orig, parity
 			missCols = append(missCols, i)
 		} else {
 			data[i] = append([]byte{}, orig[i]...)
+			if i > 0 && i < c07Alias && !missD[0] {
+				data[i] = data[0] // the supplied copies of the identical shards are one slice, too
+			} else if i > 1 && i < c07Alias && !missD[1] {
+				data[i] = data[1]
+			}
 		}
 		keepCopies = append(keepCopies, data[i])
 	}
@@ -368,6 +377,16 @@ func c07Gen(g *core.Gen) {
 			}
 		}
 	}
+	// identical data shards handed in as ONE slice (2, 3, 4 and all of them): every erasure pattern
+	for _, kind := range []string{"cauchy", "vandermonde"} {
+		for _, dp := range [][2]int{{4, 3}, {5, 4}, {6, 3}} {
+			for _, al := range []int{2, 3, 4, dp[0]} {
+				for _, l := range []int{2, 34} {
+					g.Emit(&c07Case{Kind: "small", Coder: kind, D: dp[0], P: dp[1], Len: l, G: 1 + al%3, Alias: al})
+				}
+			}
+		}
+	}
 	g.Emit(&c07Case{Kind: "limits"})
 	// a slice of the small grid on the non-SSSE3 dispatch path (shards long enough for the bulk kernels)
 	for _, kind := range []string{"cauchy", "vandermonde"} {
@@ -394,6 +413,11 @@ func c07Run(ci interface{}, r *core.Rec) {
 			return
 		}
 		orig := c07Data(r.Seed, c.D, c.Len)
+		for i := 1; i < c.Alias && i < c.D; i++ {
+			orig[i] = orig[0] // same content, same memory
+		}
+		c07Alias = c.Alias
+		defer func() { c07Alias = 0 }()
 		var parity [][]byte
 		if pi := core.Catch(func() { parity = coder.GenerateParity(orig) }); pi != nil {
 			r.Violatef("generate-panic:"+pi.Frame, "%s", pi.Value)
